@@ -154,6 +154,18 @@ def r17_3_4(ctx, fx):
         wr = [fn.site(n) for n, s in fn.assigns() if "".join(s["lhs"][1:]).endswith(".addresses") and n in after]
         ctx.ob("R17.4", "put_provider/addresses-not-grown-after-truncate", not grow and not wr, site=fn.site(t.node), cfg=fx.cfg,
                detail="growth after truncate: %s %s" % (grow, wr))
+        # "a re-announcement by the same provider updates it in place": the slot found by the search is overwritten as a whole with the
+        # new record (fresh expiry included) - not field by field
+        ims = [c for c in fn.calls(r"IndexMut(<.*>)?>?::index_mut$") if from_field(fn, c.args[0], "provider_keys")]
+        whole = []
+        for c in ims:
+            for n_, s_ in fn.assigns():
+                if s_["lhs"][0] == c.dest[0]:
+                    proj = "".join(str(x) for x in s_["lhs"][1:])
+                    rs = guards.rootstrs(fn, s_["rv"]["o"]) if s_["rv"]["r"] == "use" else set()
+                    whole.append((proj == "*" and any("Instant::now" in x for x in rs), fn.site(n_), proj))
+        ctx.ob("R17.4", "put_provider/re-announcement-replaces-the-whole-record(fresh-expiry)", bool(whole) and all(w[0] for w in whole),
+               site=fn.site(ims[0].node) if ims else fn.site(fn.entry), cfg=fx.cfg, detail="writes through the found slot: %s" % whole)
 
 
 
